@@ -270,6 +270,24 @@ func c19Child(c *mon.Child) {
 			c.End(key)
 		}
 	}
+	// statically declared types: named, recursive, embedded, Parseable/Capture/TextUnmarshaler implementers, option misuse
+	if c.Batch == 0 {
+		for i, sc := range c19StaticCases {
+			key := fmt.Sprintf("static%d", i)
+			if !c.Want(key) {
+				continue
+			}
+			c.Begin(key, sc.desc)
+			c.Eval(1)
+			var o c19Outcome
+			o.panicked, o.pv, o.st = mon.Guard(func() { o.err = sc.build() })
+			o.ok = !o.panicked && o.err == nil
+			c19Judge(c, key, o, "static type: "+sc.desc, "", sc.mustBuild)
+			c.Nontrivial("static:" + sc.desc)
+			c.Feature("static_type_cases")
+			c.End(key)
+		}
+	}
 	// (3) valid corpus must build; every single-token edit must still terminate without panic
 	corpus := c19Corpus(mon.NewRNG(c.Seed, "C19", "corpus"), c.N(60, 200))
 	edits := 0
